@@ -56,7 +56,7 @@ META = {
         "Proved in Coq: (1) C03_analysis_sound — for every exception-flow IR program, table passing the executable post-fixpoint "
         "check, mode and function, every raise site that an execution of the nondeterministic big-step semantics lets escape is in "
         "the computed escape set (induction on derivations, mutual with the handler relation); (2) C03_single_channel — on the IR "
-        "regenerated from jsonargparse/*.py at every run (163 functions reachable by name from the five parse methods, 172 raise "
+        "regenerated from jsonargparse/*.py at every run (about 165 functions reachable by name from the five parse methods, about 220 raise "
         "sites, live subclass relation), for parse_args/parse_object/parse_string/parse_env/parse_path, both exit_on_error modes and "
         "ALL executions: an escaping exception reads as the documented channel (ArgumentError / exit 2 / exit 0) unless raised at a "
         "listed finding site; (3) C03_error_is_the_channel — ArgumentParser.error never returns and raises exactly ArgumentError "
